@@ -94,7 +94,8 @@ class Profiles:
         'time': r'0|{num}m?s',
         'frequency': r'0|{num}k?Hz',
         'percentage': r'{num}%',
-        'shadow': '(inset)?{w}{length}{w}{length}{w}{length}?{w}{length}?{w}{color}?',
+        # the parts are separated by white space ("0.5em" is one length, not "0" and ".5em")
+        'shadow': r'(inset\s+)?{length}\s+{length}(\s+{length})?(\s+{length})?(\s+{color})?',
     }
 
     def __init__(self, log=None):
